@@ -22,6 +22,7 @@ type evalCtx struct {
 	pkg   *types.Package
 	inOld bool
 	nq    *int
+	bound map[string]bool
 }
 
 var (
@@ -139,6 +140,18 @@ func (c *evalCtx) eval1(e *Expr) (tval, error) {
 	case "nil":
 		return tval{t: NilLoc, ty: types.Typ[types.UntypedNil], nilLit: true}, nil
 	case "id":
+		if c.inOld {
+			// in the entry state a parameter name denotes the argument, even if the variable is addressable
+			for _, p := range c.fr.fn.Params {
+				if p.Name() == e.Name {
+					if t, ok := c.fr.regs[p]; ok {
+						if _, isBound := c.bound[e.Name]; !isBound {
+							return tval{t: t, ty: p.Type()}, nil
+						}
+					}
+				}
+			}
+		}
 		if v, ok := c.names[e.Name]; ok {
 			return v, nil
 		}
@@ -286,6 +299,10 @@ func (c *evalCtx) eval1(e *Expr) (tval, error) {
 				saved[b.Name] = nil
 			}
 			c.names[b.Name] = tval{t: sym, ty: ty}
+			if c.bound == nil {
+				c.bound = map[string]bool{}
+			}
+			c.bound[b.Name] = true
 		}
 		body, err := c.eval(e.Args[0])
 		for k, v := range saved {
